@@ -338,6 +338,80 @@ pub fn run_variant(v: Variant, input: &[u8], cfg: u8) -> Result<Summary, String>
     }
 }
 
+/// Raw reads through `Reader::stream()` between the events (io::Read on the buffered reader, AsyncRead with
+/// a `read_exact` that needs several polls on the async one): positions stay monotone and within the input,
+/// Eof is reached and stays final.
+pub fn run_stream_variant(input: &[u8], cfg: u8, is_async: bool, k: usize) -> Result<u64, String> {
+    use tokio::io::AsyncReadExt;
+    let script = Script::pieces(1);
+    let horizon = 4 * input.len() + 64;
+    let len = input.len() as u64;
+    let r = guarded_mut(|| -> Result<u64, String> {
+        let mut reader = Reader::from_reader(Source::new(input, &script));
+        apply_cfg(reader.config_mut(), cfg);
+        let mut buf = Vec::new();
+        let mut calls = 0u64;
+        let mut last = 0u64;
+        let mut eofs = 0;
+        for _ in 0..2 * input.len() + 12 {
+            buf.clear();
+            let ev = if is_async {
+                match block_on(reader.read_event_into_async(&mut buf), horizon) {
+                    Some(r) => Ev::from_result(&r),
+                    None => return Err("async read did not complete".into()),
+                }
+            } else {
+                Ev::from_result(&reader.read_event_into(&mut buf))
+            };
+            calls += 1;
+            let pos = reader.buffer_position();
+            if pos < last || pos > len || reader.error_position() > pos {
+                return Err(format!("after call #{} ({}) buffer_position is {} (before: {}, input length {}), error_position {}", calls, ev.show(), pos, last, len, reader.error_position()));
+            }
+            last = pos;
+            if ev == Ev::Eof {
+                eofs += 1;
+                if eofs == 3 {
+                    return Ok(calls);
+                }
+                continue;
+            }
+            if eofs > 0 {
+                return Err(format!("call #{} returned {} after Eof", calls, ev.show()));
+            }
+            if matches!(&ev, Ev::Err(e) if e.is_syntax()) {
+                continue;
+            }
+            // a raw read of up to k bytes
+            let mut bin = vec![0u8; k];
+            let got = if is_async {
+                let mut st = reader.stream();
+                // read_exact re-polls with one partially filled ReadBuf; a short source ends it with UnexpectedEof
+                match block_on(AsyncReadExt::read_exact(&mut st, &mut bin), horizon) {
+                    Some(_) => {}
+                    None => return Err("async raw read did not complete".into()),
+                }
+                0
+            } else {
+                let mut st = reader.stream();
+                std::io::Read::read(&mut st, &mut bin).unwrap_or(0)
+            };
+            let _ = got;
+            calls += 1;
+            let pos = reader.buffer_position();
+            if pos < last || pos > len {
+                return Err(format!("after a raw read of {} bytes through stream() (call #{}) buffer_position is {} (before: {}, input length {})", k, calls, pos, last, len));
+            }
+            last = pos;
+        }
+        Err("no Eof within the call bound".into())
+    });
+    match r {
+        Ok(x) => x,
+        Err(p) => Err(format!("panic: {}", p)),
+    }
+}
+
 fn sweep(ctx: &Ctx, ln: u32, sp: &Space, slice_cfgs: &[u8], other_cfgs: &[u8], count_distinct: bool) {
     let seed = ctx.seed;
     let mut desc = sp.desc.clone();
@@ -371,6 +445,22 @@ fn sweep(ctx: &Ctx, ln: u32, sp: &Space, slice_cfgs: &[u8], other_cfgs: &[u8], c
                         format!("input {:?} cfg [{}] {:?}: {}", lossy_head(&input), cfg_show(cfg), v, what),
                         json!({"input": bytes_json(&input), "cfg": cfg, "variant": vi}),
                     ),
+                }
+            }
+        }
+        // raw reads through stream() between events (sibling entry point of the same position bookkeeping)
+        if input.len() <= 64 && !matches!(input.first(), Some(0xEF) | Some(0xFE) | Some(0xFF)) {
+            for is_async in [false, true] {
+                for k in [1usize, 3] {
+                    acc.evaluations += 1;
+                    match run_stream_variant(&input, other_cfgs[0], is_async, k) {
+                        Ok(c) => acc.transitions += c,
+                        Err(what) => acc.violation(
+                            (ln, i),
+                            format!("input {:?} cfg [{}] {} reader with raw reads of {} bytes through stream() after every event: {}", lossy_head(&input), cfg_show(other_cfgs[0]), if is_async { "async" } else { "buffered" }, k, what),
+                            json!({"input": bytes_json(&input), "cfg": other_cfgs[0], "stream": k, "async": is_async}),
+                        ),
+                    }
                 }
             }
         }
@@ -429,7 +519,7 @@ pub fn run(ctx: &Ctx) {
          debug assertions + overflow checks on: no panic; Eof within 2*len+3 calls; three further calls after Eof / after a \
          syntax error return Eof; buffer_position monotone and <= length; error_position <= buffer_position; every payload \
          accessor of every event invoked (names, attributes x4 modes to exhaustion + 2, unescape, trimming, CDATA escapes, \
-         declaration fields, PI parts, into_owned/borrow/to_end round trips). non-trivial = stream has markup or an error; \
+         declaration fields, PI parts, into_owned/borrow/to_end round trips); on inputs up to 64 bytes also with raw reads of 1 and 3 bytes through Reader::stream() after every event (io::Read / AsyncRead::read_exact over 1-byte pieces). non-trivial = stream has markup or an error; \
          distinct inputs. states = distinct event-kind sequences",
     );
     ctx.assume("in-memory sources never fail: I/O errors are C18's business");
@@ -470,6 +560,11 @@ pub fn run(ctx: &Ctx) {
 pub fn replay(case: &Value) -> Result<(), String> {
     let input = bytes_from_json(&case["input"]);
     let cfg = case["cfg"].as_u64().unwrap_or(DEFAULT as u64) as u8;
+    if let Some(k) = case.get("stream").and_then(|k| k.as_u64()) {
+        let is_async = case["async"].as_bool().unwrap_or(false);
+        println!("input: {:?} cfg [{}] raw reads of {} bytes through stream(), async={}", lossy_head(&input), cfg_show(cfg), k, is_async);
+        return run_stream_variant(&input, cfg, is_async, k as usize).map(|c| println!("ok: {} calls", c));
+    }
     let v = match case.get("eof_once_at").and_then(|k| k.as_u64()) {
         Some(k) if case["async"].as_bool() == Some(true) => Variant::AsyncEofOnce(k as usize),
         Some(k) => Variant::BufEofOnce(k as usize),
